@@ -10,7 +10,7 @@
      Inv            the invariant of C07 (see Properties_C07.v)                                                  *)
 From Coq Require Import Permutation.
 From RtrV Require Import Base.CSem Gen.Generated Rtr.RtrModel Rtr.SyncSets Rtr.ExpiryFrames Rtr.ExpirySync
-  Rtr.ConvergeStutter Rtr.ExpiryProofs Rtr.CacheSpec Rtr.ConvergeRecv Rtr.ConvergeProofs.
+  Rtr.ConvergeStutter Rtr.ExpiryProofs Rtr.CacheSpec Rtr.ConvergeRecv Rtr.ConvergeProofs Rtr.RefreshInv Rtr.ConvergeLoop.
 Local Open Scope Z_scope.
 
 (* (1) safety, all environments: an iteration of the state machine that ends with the clock where it was has
@@ -126,11 +126,50 @@ Theorem C08_converge_partial :
                 evs w1 = EvWait (v - c_RTR_RECV_TIMEOUT) :: rest).
 Proof. split; [exact reach_sync|]. split; [exact established_quiet|exact sync_quiet]. Qed.
 
-(* The full statement (closed loop over a reacting truthful cache, from ANY reachable world, with the time bound) is kept
-   visible as Rtr/ConvergeProofs.v [C08_converge_full : Prop]; it is NOT proved.  Missing: the composition of (a)-(d) over
-   run_with_cache, and C08_snapshot (that snapshot_hyp holds after every fault prefix whose completed well-formed
-   responses were truthful). *)
-Definition C08_converge_full_statement : Prop := C08_converge_full.
+(* (5) The closed loop (Rtr/ConvergeLoop.v).  run_with_cache n fuel c w: the state machine runs against a truthful cache that
+   reacts - whenever an iteration ends in SYNC coming from another state (a query has just gone out) the cache's answer to the
+   pending query is put in front of the remaining silence - and is otherwise silent; the transport works from now on.
+     loop_bound s        max (refresh_iv s) (RTR_RECV_TIMEOUT + retry_iv s)     (<= recovery_bound s)
+     converged c B w w'  synced c w' w' (ESTABLISHED; own records = the cache's data set up to order; session, serial the cache's;
+                         last_update = now), now w' - now w <= B, records of other sources as in w
+   From ANY live world that satisfies the invariant (every world a run of faults can leave behind, C08_inv) the client is
+   synchronised after at most 8 iterations and loop_bound of protocol time: ESTABLISHED waits out the refresh timer, polls, is
+   answered (delta, or Cache Reset + reload); SYNC with a lost query times out after 60 s, sleeps retry_iv, reconnects (purging if
+   the data has expired), asks again, is answered; every error / reconnect state reaches SYNC in <= 3 iterations.
+   snapshot_hyp stays a hypothesis (what the client holds for a serial the cache remembers is the cache's set at that serial):
+   it is C03's conclusion about completed responses, not re-proved over fault prefixes here - the one part of C08 still open. *)
+Theorem C08_converge : forall (c : cache) (f : nat) (w : world) (silence : Z),
+  cache_ok c -> Inv w -> live w -> version (sk w) = c_ver c -> snapshot_hyp c w ->
+  (List.length (c_data c) < f)%nat -> (forall k old, In (k, old) (c_hist c) -> (List.length (delta_pdus old (c_data c)) < f)%nat) ->
+  0 <= refresh_iv (sk w) ->
+  (forall k, nth k (opens w) true = true) -> (1 <= List.length (opens w))%nat -> sends w = [] ->
+  evs w = [EvWait silence] -> loop_bound (sk w) < silence ->
+  exists n, (n <= 8)%nat /\ converged c (loop_bound (sk w)) w (run_with_cache n (S f) c w).
+Proof. exact converge_loop. Qed.
+
+(* the same from every world reachable from rtr_init by any run (any script of faults): the invariant and 0 <= refresh_iv
+   are then facts, not hypotheses *)
+Theorem C08_converge_reachable : forall (c : cache) (f : nat) (silence : Z) n fuel refresh expire retry mode P K0 es os ss o,
+  init_ok refresh expire retry = true ->
+  Forall ev_ok es -> NoDup P -> NoDup K0 -> own_p P = [] -> own_k K0 = [] ->
+  let w := run_fsm n fuel (start_world refresh expire retry mode P K0 es os ss o) in
+  cache_ok c -> live w -> version (sk w) = c_ver c -> snapshot_hyp c w ->
+  (List.length (c_data c) < f)%nat -> (forall k old, In (k, old) (c_hist c) -> (List.length (delta_pdus old (c_data c)) < f)%nat) ->
+  (forall k, nth k (opens w) true = true) -> (1 <= List.length (opens w))%nat -> sends w = [] ->
+  evs w = [EvWait silence] -> loop_bound (sk w) < silence ->
+  exists m, (m <= 8)%nat /\ converged c (loop_bound (sk w)) w (run_with_cache m (S f) c w).
+Proof. exact converge_reachable. Qed.
+
+(* The statement as first written down in the design round (Rtr/ConvergeProofs.v, C08_converge_full) is FALSE of the model: the
+   invariant does not bound refresh_iv from below, and a world with refresh_iv = -1000 (not reachable from rtr_init, but allowed by
+   the hypotheses) has a negative recovery_bound.  With 0 <= refresh_iv it holds (weaker than C08_converge in every respect). *)
+Theorem C08_converge_full_refuted : ~ C08_converge_full.
+Proof. exact C08_converge_full_false. Qed.
+Theorem C08_converge_full_repaired_holds : C08_converge_full_repaired.
+Proof. exact C08_converge_full_holds. Qed.
+
+(* the hypotheses are satisfiable and the witness runs: ESTABLISHED with data, the cache has moved on (non-vacuous snapshot_hyp) *)
+Example C08_converge_example := converge_loop_example_established.
 
 Print Assumptions C08_no_stutter.
 Print Assumptions C08_no_stutter_iter.
@@ -142,3 +181,7 @@ Print Assumptions C08_one_good_exchange_example.
 Print Assumptions C08_converge_partial.
 Print Assumptions C08_zero_time_example.
 Print Assumptions C08_reconnect_paced.
+Print Assumptions C08_converge.
+Print Assumptions C08_converge_reachable.
+Print Assumptions C08_converge_full_refuted.
+Print Assumptions C08_converge_full_repaired_holds.
